@@ -300,6 +300,15 @@ fn trees(thorough: bool) -> Vec<Node> {
     }
     // a condition-less child wrapping a reservation (applies only if its sub-policy does)
     kids.push(Node { mac: None, apply: Apply::Range(6, 7), children: vec![Node { mac: Some(M1), apply: Apply::Address(vec![6]), children: vec![] }] });
+    // condition-less groups inside a condition-less group, before and after a matching sibling: a
+    // group that does not apply to this client must not end the search through its siblings
+    let w_a = Node { mac: None, apply: Apply::Range(6, 7), children: vec![Node { mac: Some(M1), apply: Apply::Address(vec![6]), children: vec![] }] };
+    let m2_12 = Node { mac: Some(M2), apply: Apply::Address(vec![12]), children: vec![] };
+    let g_m1_13 = Node { mac: None, apply: Apply::None, children: vec![Node { mac: Some(M1), apply: Apply::Address(vec![13]), children: vec![] }] };
+    kids.push(Node { mac: None, apply: Apply::None, children: vec![w_a.clone(), m2_12.clone()] });
+    kids.push(Node { mac: None, apply: Apply::None, children: vec![m2_12.clone(), w_a.clone()] });
+    kids.push(Node { mac: None, apply: Apply::None, children: vec![g_m1_13.clone(), m2_12.clone()] });
+    kids.push(Node { mac: None, apply: Apply::None, children: vec![g_m1_13.clone(), w_a.clone(), m2_12.clone()] });
     let grand = Node { mac: Some(M1), apply: Apply::Address(vec![6]), children: vec![] };
     let mut out = vec![];
     for r in &roots {
@@ -490,7 +499,7 @@ pub fn run(tier: &str, replay: Option<Value>) -> ! {
     rep.cov("long_lived_depth", ll_depth);
     rep.cov("evaluations", n1 + n2 + n3);
     rep.cov("distinct_nontrivial", classes.len() as u64);
-    rep.cov("rule", "addresses: every prefix length 16..30 (thorough 10..30) x written with/without host bits x server address {first, last, middle host, outside} x reserved address {none, first, last, second host}: build_default_config's pool vs hosts - server - reserved. drain: policy trees over 192.0.2.0/28 (root: apply-subnet /28 /29 /30, every apply-range in a 6-address window, 1-2 apply-address; 0-2 children matching hardware addresses M1/M2 with address/range/subnet/no pool, a condition-less wrapper, a depth-3 reservation; overlapping sibling pools skipped) x 3 hardware addresses, each drained with fresh client identifiers through handle_pkt until the no-address error. histories: every history of exactly long_lived_depth operations over {4 configurations with different pools / two interfaces / a reservation, 2 clients, DISCOVER/REQUEST with and without a named address, 2-3 clock steps} on ONE never-reopened Pool, every reply's address judged against the pool configured for that client on that interface at that step. distinct = shape classes");
+    rep.cov("rule", "addresses: every prefix length 16..30 (thorough 10..30) x written with/without host bits x server address {first, last, middle host, outside} x reserved address {none, first, last, second host}: build_default_config's pool vs hosts - server - reserved. drain: policy trees over 192.0.2.0/28 (root: apply-subnet /28 /29 /30, every apply-range in a 6-address window, 1-2 apply-address; 0-2 children matching hardware addresses M1/M2 with address/range/subnet/no pool, a condition-less wrapper, condition-less groups nested in a condition-less group before/after a matching sibling, a depth-3 reservation; overlapping sibling pools skipped) x 3 hardware addresses, each drained with fresh client identifiers through handle_pkt until the no-address error. histories: every history of exactly long_lived_depth operations over {4 configurations with different pools / two interfaces / a reservation, 2 clients, DISCOVER/REQUEST with and without a named address, 2-3 clock steps} on ONE never-reopened Pool, every reply's address judged against the pool configured for that client on that interface at that step. distinct = shape classes");
     rep.cov("exhaustive", true);
     rep.cov("parts", json!({"addresses_configs": n1, "policy_trees": trees_n, "drain_requests": n2}));
     rep.cov("classes_sample", json!(classes.iter().take(12).collect::<Vec<_>>()));
